@@ -167,6 +167,37 @@ mutual
     | (k, v) :: r => k :: v :: flatPairs r
 end
 
+mutual
+  /-- the conversion the property prescribes: double / big number / verbatim text → (bulk) string,
+      boolean → 0/1, map or pair list → flat array, set → array, null → nil -/
+  def downSpec : Value → Value
+    | .simple s => .simple s
+    | .error s => .error s
+    | .int i => .int i
+    | .bulk b => .bulk b
+    | .double t => .bulk t
+    | .bool true => .int 1
+    | .bool false => .int 0
+    | .big t => .bulk t
+    | .verbatim _ t => .bulk t
+    | .blobErr s => .error s
+    | .map kvs => .array (downSpecMap kvs)
+    | .pairs kvs => .array (downSpecMap kvs)
+    | .array xs => .array (downSpecList xs)
+    | .set xs => .array (downSpecList xs)
+    | .attr kvs => .array (downSpecMap kvs)
+    | .null => .nil
+    | .nil => .nil
+    | .push k xs => .push k xs
+    | .endMark => .endMark
+  def downSpecList : List Value → List Value
+    | [] => []
+    | x :: xs => downSpec x :: downSpecList xs
+  def downSpecMap : List (Value × Value) → List Value
+    | [] => []
+    | (k, v) :: r => downSpec k :: downSpec v :: downSpecMap r
+end
+
 /-! ## Parser -/
 
 inductive PR (α : Type) where
